@@ -32,6 +32,6 @@ DELIVERABLES (write them into {out}/ ):
 PROCEDURE
 1. Read the relevant code in {wt} to understand the mechanism.
 2. Make the change; run the full suite (command above) and confirm identical counts. If any previously passing test fails, revise the change.
-3. Write demo.py; verify: fails on patched tree; then `git -C {wt} stash`, verify it prints PASS and exits 0 on the clean tree; `git -C {wt} stash pop`.
+3. Write demo.py; verify: fails on patched tree; then save your change (`git -C {wt} diff > {out}/patch.diff`), revert it (`git -C {wt} checkout -- .`), verify the demo prints PASS and exits 0 on the clean tree, and re-apply (`git -C {wt} apply {out}/patch.diff`). Do NOT use `git stash` (the stash is shared between worktrees).
 4. Write the three deliverables. Leave the worktree with your change applied.
 Report back briefly: the diff, what is needed to manifest, and the exact outputs of the demo on both trees and of the test-suite tail.""")
